@@ -25,6 +25,7 @@ def run(R, ctx):
     c08.rotation_table(R, ctx, 'R09.2', lambda c: c == 'AgeOrSize')
     reset_table(R, ctx)
     creation_fallback(R, ctx)
+    new_created_at(R, ctx)
     stored_timestamp(R, ctx)
 
 
@@ -138,6 +139,38 @@ def creation_fallback(R, ctx):
         raise CheckError(f"R09.3: fallback chain not recognised (cases {sorted(kinds)})")
     R.check('R09.3', 'get_creation_timestamp|fallback', ok and n >= 3, f"{n} rows: creation -> modification -> now (std-level effects)",
             f"fallback chain of get_creation_timestamp deviates: {why}", where=b.loc(), sample={'rows': n})
+
+
+def new_created_at(R, ctx):
+    """at (re)start the period of the current file starts when the FILE was started: RollState::new takes created_at of the
+    age-bearing variants from the creation timestamp of the path it is given (fallback chain: R09.3), not from the clock -
+    otherwise an append-restart in a later period keeps writing into the earlier period's file"""
+    f = ctx.f
+    b = ctx.body(r'^writers::file_log_writer::state::RollState::new$')
+    GC = r'state::get_creation_timestamp$'
+    rows = FDI(f, effects=[GC, r'^chrono::Local::now$', r'^std::fs::metadata$'], no_inline=[GC]).run(b.path, arg_names=['criterion', 'append', 'path'])
+    seen = set()
+    bad = None
+    for r in rows:
+        if r.undecided:
+            raise CheckError(f"R09.3 RollState::new: UNDECIDED {r.undecided}")
+        res = r.result
+        if not (isinstance(res, Agg) and res.variant == 'Ok' and res.fields and isinstance(res.fields[0], Agg)):
+            continue
+        st = res.fields[0]
+        vs = [v for v in f.adts[c08.ROLL]['variants'] if v['name'] == st.variant]
+        names = [fd['name'] for fd in vs[0]['fields']] if vs else []
+        if 'created_at' not in names:
+            continue
+        seen.add(st.variant)
+        cx = I_x(st.fields[names.index('created_at')])
+        gc = [e for e in r.effects if re.search(GC, e[0])]
+        if not T.eff_indices(cx, GC) or T.eff_indices(cx, r'^chrono::Local::now$') or not gc or not T.is_input(gc[0][2]['x'][0], 'path'):
+            bad = f"created_at of RollState::{st.variant} is {r.long(repr(st.fields[names.index('created_at')]))[:100]}, not the creation timestamp of the file at `path`"
+    if not bad and not {'Age', 'AgeOrSize'} <= seen:
+        raise CheckError(f"R09.3 RollState::new: age-bearing variants not found on the rows ({seen})")
+    R.check('R09.3', 'RollState::new|created_at', not bad, "created_at = creation timestamp of the given path for Age and AgeOrSize",
+            f"RollState::new: {bad}: after a restart with append in a later period the old file is not rotated at the first write", where=b.loc())
 
 
 def stored_timestamp(R, ctx):
